@@ -130,6 +130,15 @@ def step (st : St) (line : String) : St × String :=
   | ["reset", n] => ({ w := World.init n.toNat! }, "ok")
   | ["bye"] => (st, "ok")
   | ["settlems", _] => (st, "ok")
+  | ["reset", n, _] => ({ w := World.init n.toNat! }, "ok")
+  | ["realtime", _] => (st, "ok")
+  | ["burst", c, t, q, first, n] =>
+    if !known st c then (st, "noclient") else
+    if !writable st c then observe st "write-failed" else
+    let w := (List.range n.toNat!).foldl (fun (w : World) j =>
+      let k := first.toNat! + j
+      w.clientPacket c (.publish (unTopic t) (Driver.toHex [UInt8.ofNat (k / 256), UInt8.ofNat (k % 256)]) q.toNat! false false ((k % 65535 + 1 : Nat) : Int))) st.w
+    observe { st with w } "ok"
   | ["connect", c, node, client, mount, ka, will] =>
     let st := ensureClient st c
     let st := if (st.w.conns.any (fun e => e.1 == c)) then { st with w := st.w.drop c } else st
@@ -262,7 +271,8 @@ def step (st : St) (line : String) : St × String :=
     ({ st with w := st.w.setNode n.toNat! nd' }, "ok")
   | ["nodefail", n] => observe { st with w := st.w.nodeFail n.toNat! } "ok"
   | ["expire", n] => observe { st with w := st.w.sweep n.toNat! } "ok"
-  | ["idle", ms] => observe { st with w := st.w.idle (ms.toInt?.getD 0) } "ok"
+  | ["idle", ms] => observe { st with w := Wasp.Wire.idle st.w (ms.toInt?.getD 0) } "ok"
+  | ["elapse", ms] => observe { st with w := Wasp.Wire.elapse st.w (ms.toInt?.getD 0) } "ok"
   | ["state", n] => (st, showState (st.w.node n.toNat!))
   | ["setpool", n, a, b] =>
     let nd := st.w.node n.toNat!
